@@ -66,6 +66,10 @@ def run(ctx):
         ("session-use", ["session", "-rounds", n(2, 6), "-clients", "8", "-steps", "10", "-out", ctx.path("r1.ndjson"), "-stats", ctx.path("s1.json")]),
         ("req-drops", ["req", "-random", n(500, 4000), "-nodes", "3", "-numconns", "2", "-clients", "6", "-workers", "6", "-round", "250",
                        "-droprate", "0.5", "-delay", "2", "-out", ctx.path("r2.ndjson"), "-stats", ctx.path("s2.json")]),
+        # nodes that stop reading and then lose their connections while bulky requests are queued for them: requests still
+        # in the write queue of a dead connection are retried on another one
+        ("req-stall-drops", ["req", "-random", n(300, 2000), "-nodes", "3", "-numconns", "2", "-clients", "4", "-workers", "6", "-round", "300",
+                             "-stalldrops", "6", "-okbias", "6", "-nodrops", "-out", ctx.path("r9.ndjson"), "-stats", ctx.path("s9.json")]),
         ("req-prepare", ["req", "-random", n(400, 3000), "-nodes", "3", "-numconns", "1", "-clients", "6", "-workers", "6", "-round", "200",
                          "-kinds", "execute,batch", "-restarts", "4", "-out", ctx.path("r3.ndjson"), "-stats", ctx.path("s3.json")]),
         ("req-addnode-lz4", ["req", "-random", n(200, 1500), "-nodes", "2", "-numconns", "1", "-clients", "4", "-workers", "4", "-round", "100",
@@ -88,7 +92,10 @@ def run(ctx):
     if len(member) < 5:
         raise core.Inconclusive("too few membership-changing fault sequences exported (%d)" % len(member))
     tpath = ctx.path("topo_race.jsonl")
-    open(tpath, "w").write("\n".join(member[:int(n(5, 30))]) + "\n")
+    # ... and sequences in which the control connection is lost and re-established (what the cluster loop learns on a
+    # reconnect is read by every client goroutine that answers OPTIONS or a read of the virtual system tables)
+    ctrl = [b for b in behs if ('"dropctrl"' in b or '"dropall"' in b) and b not in member[:int(n(5, 30))]]
+    open(tpath, "w").write("\n".join(member[:int(n(5, 30))] + ctrl[:int(n(3, 15))]) + "\n")
     scenarios.append(("topology-hammer", ["topo", "-in", tpath, "-out", ctx.path("topo_race.json"), "-base", "5", "-max", "400", "-budget", "8000", "-hammer", "4"]))
     # plan creation and consumption while membership events are applied (LoadBalancer.tla behaviours, in memory: no
     # socket operations order the goroutines, so the detector sees every unsynchronised access of this family)
